@@ -66,7 +66,8 @@ CFG = dict(
          "inside RecvMsg while the handler's main goroutine sends / returns: push-while-receiving (the caller waits for the n pushes before it "
          "sends and half-closes) and return-while-receiving (the handler returns nil while its receiver goroutine is parked in RecvMsg; the "
          "caller must get the n pushes, then io.EOF), n in 0..2, two kinds, the receiver stepped first; 1 in 6 of the streams of (B) and (C) "
-         "has such a handler (a RecvMsg of the receiver goroutine that fails after the handler returned is not an error); (A6) full-duplex use over "
+         "has such a handler (a RecvMsg of the receiver goroutine that fails after the handler returned is not an error); (A7) the Write of the 1st / 3rd / 5th of five messages delivers it and then reports a timeout (acknowledgement lost): the message may "
+         "arrive, once; the failed SendMsg tears the stream down, what fails afterwards on that stream is excused; (A6) full-duplex use over "
          "a link WITHOUT slack (goat's channel transport over unbuffered channels, by reference), free-running under the wedge detection: a "
          "concurrent handler against a caller that sends n in {8, 20, 100} messages before it starts receiving, a caller with sender and receiver "
          "goroutines against an echo handler (n in {20, 100}), both sides concurrent (random programs are NOT run over this link: a caller and a "
